@@ -121,7 +121,38 @@ def gen_cluster(rng, tier, small=False):
     while len(sched) < length:
         a = rng.below(100)
         m = rng.below(n)
-        if a < 12:      # a clean election round for m
+        if a < 7 and n >= 3:
+            # a deposed leader with unreplicated entries comes back as a candidate: `focus` appends a few
+            # entries that reach nobody (its outgoing messages are only delayed, which the fail-stop
+            # network allows), another member wins the next term, replicates and commits, then the old
+            # leader times out twice and asks for votes with a long log of an old term
+            old = focus
+            sched.append({"m": old, "reqs": [fresh() for _ in range(rng.range(2, 4))], "deliver": []})
+            new = rng.choice([y for y in range(n) if y != old])
+            rest = [y for y in range(n) if y not in (old, new)]
+            sched.append({"m": new, "el": True, "deliver": []})
+            if rng.chance(1, 3):
+                sched.append({"m": new, "el": True, "deliver": []})
+            for x in rng.shuffle(rest):
+                sched.append({"m": x, "deliver": "all"})
+            sched.append({"m": new, "deliver": "all"})
+            for _ in range(rng.range(1, 2)):
+                sched.append({"m": new, "reqs": [fresh() for _ in range(rng.range(1, 2))], "hb": True, "deliver": "all"})
+                for x in rng.shuffle(rest):
+                    sched.append({"m": x, "deliver": "all"})
+                sched.append({"m": new, "hb": True, "deliver": "all"})
+                for x in rng.shuffle(rest):
+                    sched.append({"m": x, "deliver": "all"})
+            for _ in range(rng.range(2, 3)):
+                sched.append({"m": old, "el": True, "deliver": []})
+            for x in rng.shuffle(rest + [new]):
+                sched.append({"m": x, "deliver": "all"})
+            sched.append({"m": old, "deliver": "all", "hb": True})
+            for x in rng.shuffle(rest + [new]):
+                sched.append({"m": x, "deliver": "all"})
+            sched.append({"m": old, "deliver": "all", "hb": True})
+            focus = old if rng.chance(1, 2) else new
+        elif a < 12:      # a clean election round for m
             focus = m
             sched.append({"m": m, "el": True, "deliver": "all"})
             if rng.chance(1, 4):  # consume the heartbeat-suppression flag first
